@@ -87,8 +87,24 @@ class DiffContract(FunctionContract):
 
     def setup(self, interp, scenario):
         n, xdata, x, d, fill = _inputs(interp, 'd')
-        return Call([x, SInt(d)], {'fill_value': SFloat(fill)}, entry=dict(n=n, xdata=xdata, x=x, d=d, fill=fill,
-                                                                        inputs={'n': n, 'd': d}))
+        ctx = interp.ctx
+        e = dict(n=n, xdata=xdata, x=x, d=d, fill=fill, inputs={'n': n, 'd': d}, lag_calls=[])
+
+        def lag_contract(interp_, o, args, kwargs, node):
+            # the caller is checked against lag's contract (proved above), not its body: a fresh array with lag(x, p)[i] = x[i - p] inside,
+            # the fill value it was given (NaN by default) elsewhere
+            arr = args[0]
+            p_ = V.to_int_term(args[1]) if len(args) > 1 else V.to_int_term(kwargs.get('p', 1))
+            fv = kwargs.get('fill_value', float('nan'))
+            e['lag_calls'].append((arr, p_, fv))
+            fterm = V.to_float_term(fv)
+            rdata = ctx.fresh('lagged', z3.ArraySort(INT, F64))
+            src = arr.arr
+            i = z3.Int('i!lag')
+            ctx.assume(z3.ForAll([i], z3.Implies(z3.And(0 <= i, i < arr.length), z3.Select(rdata, i) == shift_spec(src, arr.length, p_, fterm, i))))
+            return SArr(arr.length, rdata, 'float', prov='owned')
+        interp.registry.set_calls({'fsic.functions.lag': lag_contract})
+        return Call([x, SInt(d)], {'fill_value': SFloat(fill)}, entry=e)
 
     def post(self, interp, scenario, call, out):
         ctx = interp.ctx
@@ -100,6 +116,10 @@ class DiffContract(FunctionContract):
             return
         ctx.prove(d >= 0, 'negative_d_is_rejected', 'raises')
         r = out.value
+        # whatever helper computes the lagged series is handed the caller's fill value (an integer series cannot hold the default NaN)
+        for arr_, p_, fv_ in e['lag_calls']:
+            same = V.is_sym(fv_) and z3.eq(V.z3_of(fv_), fill)
+            ctx.prove(z3.BoolVal(bool(same)), 'fill_value_is_passed_on_to_lag', 'pre-at-call')
         ctx.prove(r.length == n, 'result_has_input_length', 'ensures')
         spec = lambda i: z3.If(i >= d, z3.fpSub(V.RNE, z3.Select(xdata, i), z3.Select(xdata, i - d)), fill)  # noqa: E731
         # d == 0: x - x[i-0] is not what the code returns (it returns x itself); the property's formula is for i >= d >= 0 with
